@@ -67,6 +67,11 @@ def run(ctx) -> None:
             ctx.reuse("C02.funnel", c01.pair_ad, dev, meth, track, kind_)
     ctx.reuse("C02.funnel", c01.pair_distribute, "C01.pair-distribute")
     ctx.guard("C02.exception-total", exception_total)
+    ctx.guard("C02.exception-total", global_fp_state)
+    # the limits themselves are numbers that comparisons can work with (a NaN limit defeats every later check)
+    from . import c20
+
+    ctx.reuse("C02.ctor", c20.guard_table)
 
 
 # ----------------------------------------------------------------------------- owner
@@ -744,3 +749,27 @@ def funnel(ctx) -> None:
             ctx.rep.check(ok, rule, f"{dev.name}.{name}", f"{len(tracked)} direct add/remove calls, {len(via)} via worklist methods",
                           f"{dev.name}.{name} emits pipetting records for a Labware but never reaches Labware.add/remove: no limit is enforced", where=f.where())
     ctx.rep.floor(rule, "pipetting worklist methods with a Labware parameter", count, 8)
+
+
+def global_fp_state(ctx) -> None:
+    """Nothing in the package changes numpy's / Python's global floating-point or warning behaviour: with `numpy.seterr(all="raise")`
+    (or warnings turned into errors) the arithmetic in front of a limit guard - `v_original + volume` overflowing to inf - raises
+    FloatingPointError / a Warning instead of reaching the guard that raises the Volume...Error."""
+    rule = "C02.exception-total"
+    hits = []
+    n = 0
+    for m in ctx.prog.modules.values():
+        for sub in ast.walk(m.tree):
+            n += 1
+            if isinstance(sub, ast.Call):
+                txt = show(sub.func)
+                if txt.split(".")[-1] in ("seterr", "seterrcall", "simplefilter", "filterwarnings") or txt.endswith("errstate"):
+                    args = [a.value for a in sub.args if isinstance(a, ast.Constant)] + [k.value.value for k in sub.keywords if isinstance(k.value, ast.Constant)]
+                    if txt.split(".")[-1] in ("simplefilter", "filterwarnings") and "error" not in args:
+                        continue
+                    hits.append((m, sub))
+    for m, sub in hits:
+        ctx.rep.refuted(rule, f"{m.name}/{show(sub)[:40]}", f"`{show(sub)[:60]}` changes the global floating-point / warning state: arithmetic that precedes a limit guard (an addition overflowing to inf, 0/0) "
+                        "raises FloatingPointError or a Warning instead of the VolumeOverflowError / VolumeUnderflowError the guard would give", where=f"{m.relpath}:{getattr(sub, 'lineno', 0)}")
+    if not hits:
+        ctx.rep.holds(rule, "package/no-global-fp-state", "no call of numpy.seterr / errstate / warnings filters that turn warnings into errors anywhere in the package")
